@@ -192,6 +192,20 @@ class PathCtl:
         self.pc.append(conds[idx])
         return idx
 
+    def choose_free(self, n, name):
+        """n-way choice on a fresh variable (every alternative is feasible by construction: no solver call)"""
+        var = z3.Int(name)
+        k = len(self.trace)
+        if k < len(self.prefix):
+            idx = self.prefix[k]
+        else:
+            idx = 0
+        self.trace.append((list(range(n)), idx))
+        c = var == idx
+        self.solver.add(c)
+        self.pc.append(c)
+        return idx
+
     def branch(self, cond):
         """boolean branch; concrete conditions are returned directly"""
         if isinstance(cond, bool):
